@@ -14,6 +14,7 @@ From MV Require Toc.Acl.
 From MV Require Schema.Subtype.
 From MV Require Toc.UserView.
 From MV Require Rec.Crash.
+From MV Require Rec.Frozen.
 Import ListNotations.
 Local Open Scope string_scope.
 
@@ -32,5 +33,6 @@ Definition dispatch (x : sx) : sx :=
   | L [A "c13"; c] => Schema.Subtype.run_c13 c
   | L [A "c08"; c] => Toc.UserView.run_c08 c
   | L [A "c11"; c] => Rec.Crash.run_c11 c
+  | L [A "c02"; c] => Rec.Frozen.run_c02 c
   | _ => sx_bad "dispatch"
   end.
